@@ -1404,7 +1404,8 @@ class IoSuber(SuberBase):
             val (str|None):  value str, None if no entry at keys
 
         """
-        val = self.db.getIoValFirst(sdb=self.sdb, key=self._tokey(keys))
+        val = self.db.getIoValFirst(sdb=self.sdb, key=self._tokey(keys),
+                                   sep=self.ionsep)
         return (self._des(val) if val is not None else val)
 
 
@@ -1419,7 +1420,8 @@ class IoSuber(SuberBase):
             val (str|None):  value str, None if no entry at keys
 
         """
-        val = self.db.getIoValLast(sdb=self.sdb, key=self._tokey(keys))
+        val = self.db.getIoValLast(sdb=self.sdb, key=self._tokey(keys),
+                                   sep=self.ionsep)
         return (self._des(val) if val is not None else val)
 
 
@@ -1469,7 +1471,8 @@ class IoSuber(SuberBase):
             val (str|None):  value str, None if no entry at keys
 
         """
-        val = self.db.popIoVal(sdb=self.sdb, key=self._tokey(keys))
+        val = self.db.popIoVal(sdb=self.sdb, key=self._tokey(keys),
+                                   sep=self.ionsep)
         return (self._des(val) if val is not None else val)
 
 
@@ -1654,7 +1657,8 @@ class IoSetSuber(SuberBase):
             val (str|None):  value str, None if no entry at keys
 
         """
-        val = self.db.getIoValFirst(sdb=self.sdb, key=self._tokey(keys))
+        val = self.db.getIoValFirst(sdb=self.sdb, key=self._tokey(keys),
+                                   sep=self.ionsep)
         return (self._des(val) if val is not None else val)
 
 
@@ -1669,7 +1673,8 @@ class IoSetSuber(SuberBase):
             val (str|None):  value str, None if no entry at keys
 
         """
-        val = self.db.getIoValLast(sdb=self.sdb, key=self._tokey(keys))
+        val = self.db.getIoValLast(sdb=self.sdb, key=self._tokey(keys),
+                                   sep=self.ionsep)
         return (self._des(val) if val is not None else val)
 
 
@@ -1719,7 +1724,8 @@ class IoSetSuber(SuberBase):
             val (str|None):  value str, None if no entry at keys
 
         """
-        val = self.db.popIoVal(sdb=self.sdb, key=self._tokey(keys))
+        val = self.db.popIoVal(sdb=self.sdb, key=self._tokey(keys),
+                                   sep=self.ionsep)
         return (self._des(val) if val is not None else val)
 
 
